@@ -46,6 +46,8 @@ func (rt *runtime) newRegExpObject(pattern string, flags string) *object {
 			}
 			ignoreCase = true
 			re2flags += "i"
+		default:
+			panic(rt.panicSyntaxError("newRegExpObject: %s %s", pattern, flags))
 		}
 	}
 
